@@ -449,7 +449,7 @@ func (x *c1runner) check(p c1prog, r *Rng) int {
 		diffs := c1Diffs(base.info.paths, res.info.paths)
 		cls := x.class(p, texts, base.canon, res.canon, applied)
 		if cls == "" {
-			cls = c1classByDiff(p, base, res, diffs)
+			cls = c1classByDiff(p, base, res, diffs, texts...)
 		}
 		c.Direct(false, cls, "canon(eval P) != canon(eval P'): "+c1diffString(diffs),
 			map[string]any{"name": p.name, "stream": p.stream, "p": p.src, "p_rearranged": texts, "applied": c1appliedString(applied),
@@ -501,13 +501,23 @@ var c1flagRe = regexp.MustCompile(`<[RCE]+>`)
 
 // c1classByDiff: classes decided by WHERE and HOW the two value trees differ. Every differing
 // path must be explained by a known class, otherwise the pair stays unclassified.
-func c1classByDiff(p c1prog, base, res c1res, diffs []c1diff) string {
+func c1classByDiff(p c1prog, base, res c1res, diffs []c1diff, texts ...string) string {
 	if len(diffs) == 0 {
 		return ""
 	}
 	hasRef := strings.Contains(p.src, ".") || strings.Contains(p.src, "[")
 	bothErr := base.info.nErr > 0 && res.info.nErr > 0
 	embRef := c1hasEmbeddedRef(p.src)
+	if !embRef && (strings.Contains(p.src, "#") || strings.Contains(p.src, "close(")) {
+		// the sole-embedding wrap `{…}` → `{{…}}` of the rearrangement itself puts a literal
+		// that holds a definition reference / close() into an embedding (C05: `{A}` is not
+		// always A for closedness)
+		for _, t := range texts {
+			if strings.Contains(t, "{{") {
+				embRef = true
+			}
+		}
+	}
 	selfRef := c1selfRef(p.src)
 	nMarks := c1countMarks(p.src)
 	compr := strings.Contains(p.src, "if ") || strings.Contains(p.src, "for ")
@@ -518,9 +528,10 @@ func c1classByDiff(p c1prog, base, res c1res, diffs []c1diff) string {
 		case d.kind == "value" && sa == sb:
 			// only the Allows probes differ: they answer "true" for a node with an
 			// erroneous child; explained by the child's entry
-			found["derived"] = true
+			found["allows-answer-of-vertex-depends-on-arrangement"] = true
 		case compr && (strings.HasPrefix(sa, "{}") && sb == "T(_)" || strings.HasPrefix(sb, "{}") && sa == "T(_)" ||
-			sa == "T(_)+"+sb || sb == "T(_)+"+sa):
+			c1flagRe.ReplaceAllString(sa, "") == "T(_)+"+c1flagRe.ReplaceAllString(sb, "") ||
+			c1flagRe.ReplaceAllString(sb, "") == "T(_)+"+c1flagRe.ReplaceAllString(sa, "")):
 			found["top-unified-with-struct-holding-failing-comprehension"] = true
 		case d.kind == "err-class" && hasRef:
 			found["missing-field-reference-fatal-vs-incomplete"] = true
@@ -531,6 +542,9 @@ func c1classByDiff(p c1prog, base, res c1res, diffs []c1diff) string {
 			found["closedness-of-embedded-reference-depends-on-arrangement"] = true
 		case d.kind == "value" && embRef && (strings.HasPrefix(sa, "|(") || strings.HasPrefix(sb, "|(")):
 			// a disjunct that closedness should eliminate survives in one arrangement
+			found["closedness-of-embedded-reference-depends-on-arrangement"] = true
+		case d.kind == "value" && embRef && strings.Count(sa, "_|_(") != strings.Count(sb, "_|_("):
+			// the error-vs-value difference sits inside a disjunct / untracked part of the node
 			found["closedness-of-embedded-reference-depends-on-arrangement"] = true
 		case selfRef && (strings.HasPrefix(sa, "|(") || strings.HasPrefix(sb, "|(") || d.kind != "value"):
 			found["self-reference-inside-disjunction-or-comprehension"] = true
@@ -550,6 +564,7 @@ func c1classByDiff(p c1prog, base, res c1res, diffs []c1diff) string {
 	for _, c := range []string{"closedness-of-embedded-reference-depends-on-arrangement",
 		"self-reference-inside-disjunction-or-comprehension", "cyclic-mutual-constraint-error-placement",
 		"default-order-several-marked-disjunctions", "closed-flag-of-vertex-depends-on-arrangement",
+		"allows-answer-of-vertex-depends-on-arrangement",
 		"top-unified-with-struct-holding-failing-comprehension",
 		"missing-field-reference-fatal-vs-incomplete", "error-placement-through-reference"} {
 		if found[c] {
@@ -798,10 +813,10 @@ func c1Slots(c *Cfg, repo string, r *Rng) []c1slot {
 	for _, p := range c1Corpus(repo) {
 		slots = append(slots, c1slot{prog: p})
 	}
-	nGen := c.Pick(1600, 30000)
-	nMarks := c.Pick(300, 4000)
+	nGen := c.Pick(1600, 8000)
+	nMarks := c.Pick(300, 1000)
 	if c.Focus {
-		nGen, nMarks = c.Pick(6000, 60000), 0
+		nGen, nMarks = c.Pick(5000, 16000), 0
 	}
 	gr := r.Sub()
 	for i := 0; i < nGen; i++ {
@@ -834,7 +849,7 @@ func c1Worker(c *Cfg, w, n, start int) {
 		repo = "/repo"
 	}
 	slots := c1Slots(c, repo, NewRng(c.Seed))
-	x := &c1runner{c: c, k: c.Pick(4, 8), timeout: 10 * time.Second}
+	x := &c1runner{c: c, k: c.Pick(4, 6), timeout: 10 * time.Second}
 	progress := filepath.Join(c.Out, "progress.json")
 	x.note = func(i int, name string, texts []string) {
 		b, _ := json.Marshal(c1progress{i, name, texts})
@@ -877,7 +892,11 @@ func c1Worker(c *Cfg, w, n, start int) {
 			c1Snapshot(c)
 		}
 	}
+	// leave at once: an abandoned (timed-out) evaluation must not take the process down
+	// between here and the end of main
+	c.finish()
 	os.Remove(progress)
+	os.Exit(0)
 }
 
 func runC01(c *Cfg) {
@@ -931,7 +950,13 @@ func runC01(c *Cfg) {
 				var pg c1progress
 				b, rerr := os.ReadFile(filepath.Join(dir, "progress.json"))
 				if rerr != nil || json.Unmarshal(b, &pg) != nil {
-					c.Direct(false, "harness-crash", "worker died without progress record: "+c1clip2(string(out)), nil)
+					cls := "harness-crash"
+					if strings.Contains(string(out), "stack overflow") {
+						// an abandoned (timed-out) evaluation blew the stack after the worker
+						// had finished its slots
+						cls = "evaluator-stack-overflow"
+					}
+					c.Direct(false, cls, "worker died without progress record: "+c1clip2(string(out)), nil)
 					return
 				}
 				what := "the evaluator takes the process down"
